@@ -10,7 +10,7 @@ From RV Require Import Proofs.Tree.
 From RV Require Import Proofs.Collect.
 From RV Require Import Proofs.Filters.
 From RV Require Import Proofs.Ids.
-From Coq Require Import NArith ZArith List Bool String.
+From Coq Require Import NArith ZArith QArith List Bool String.
 Import ListNotations.
 Local Open Scope N_scope.
 
@@ -39,7 +39,7 @@ Print Assumptions C05_chain_walk.
 (* ---- text spans keep their own paints; those are NOT collected (loop_over_paint_servers skips Node::Text
    "flattened text would be used instead"), DESIGN section 5 F27: refuted, class `text-span-paint` *)
 Definition f27_root : group :=
-  G 0 None None [] [NText 0 (G 0 None None [] [NPath 0 (PLin 8 2) PNone]) [CH None [PP (PLin 7 1) PNone]]].
+  G 0 false None None [] [NText 0 (G 0 false None None [] [NPath 0 (PLin 8 2) PNone]) [CH None [PP (PLin 7 1) PNone]]].
 Theorem C05_span_paints_collected_refuted :
   exists root p, In p (reach_span_paints root) /\
     ~ In (pa_ptr p) (map pa_ptr (t_lins (with_collections root))).
@@ -95,6 +95,11 @@ Theorem C05_kernel_shape : forall ord mlen dz tx ty k,
   convolve_kernel ord mlen dz tx ty = Some k -> kernel_ok k = true.
 Proof. exact convolve_kernel_ok. Qed.
 Print Assumptions C05_kernel_shape.
+
+(* a specular lighting primitive that survives conversion has its exponent in [1, 128] *)
+Theorem C05_specular_exponent : forall a e, specular_exponent a = Some e -> (1 <= e /\ e <= 128)%Q.
+Proof. exact specular_exponent_range. Qed.
+Print Assumptions C05_specular_exponent.
 
 Theorem C05_color_matrix_len : forall v n, color_matrix_len v = Some n -> n = 20%Z.
 Proof.
@@ -168,11 +173,11 @@ Print Assumptions C05_node_by_id_unique.
 
 (* ---- non-vacuity *)
 (* the F8 witness shape: chains a -> b -> c of clip paths and of masks; all three links are collected *)
-Definition leaf : group := G 0 None None [] [NPath 0 PColor PNone].
+Definition leaf : group := G 0 false None None [] [NPath 0 PColor PNone].
 Definition f08_root : group :=
-  G 0 None None []
-    [NGroup (G 0 (Some (CD 1 11 (Some (CD 2 12 (Some (CD 3 13 None leaf)) leaf)) leaf)) None [] [NPath 0 PColor PNone]);
-     NGroup (G 0 None (Some (MD 4 14 (Some (MD 5 15 (Some (MD 6 16 None leaf)) leaf)) leaf)) [] [NPath 0 PColor PNone])].
+  G 0 false None None []
+    [NGroup (G 0 false (Some (CD 1 11 (Some (CD 2 12 (Some (CD 3 13 None leaf)) leaf)) leaf)) None [] [NPath 0 PColor PNone]);
+     NGroup (G 0 false None (Some (MD 4 14 (Some (MD 5 15 (Some (MD 6 16 None leaf)) leaf)) leaf)) [] [NPath 0 PColor PNone])].
 Example C05_nv_chain :
   map c_ptr (t_clips (with_collections f08_root)) = [1; 2; 3] /\
   map m_ptr (t_masks (with_collections f08_root)) = [4; 5; 6].
@@ -180,11 +185,11 @@ Proof. vm_compute. split; reflexivity. Qed.
 
 (* a clip path that is only reachable through a pattern inside a mask inside a feImage is collected *)
 Definition deep_root : group :=
-  G 0 None None []
-    [NGroup (G 0 None None
-       [FD 9 19 [PR 9 1 [] (Some (G 0 None None []
-          [NGroup (G 0 None (Some (MD 8 18 None (G 0 None None []
-             [NPath 0 (PPat 7 17 (G 0 None None [] [NGroup (G 0 (Some (CD 1 11 None leaf)) None [] [])])) PNone]))) [] [])]))]] [])].
+  G 0 false None None []
+    [NGroup (G 0 false None None
+       [FD 9 19 [PR 9 1 [] (Some (G 0 false None None []
+          [NGroup (G 0 false None (Some (MD 8 18 None (G 0 false None None []
+             [NPath 0 (PPat 7 17 (G 0 false None None [] [NGroup (G 0 false (Some (CD 1 11 None leaf)) None [] [])])) PNone]))) [] [])]))]] [])].
 Example C05_nv_deep : map c_ptr (t_clips (with_collections deep_root)) = [1] /\
                       map pa_ptr (t_pats (with_collections deep_root)) = [7].
 Proof. vm_compute. split; reflexivity. Qed.
